@@ -47,20 +47,30 @@ func concCfg(procs, calls int, lazy, emit bool) string {
 func c16Sources(n int) [][]byte {
 	var out [][]byte
 	for i := 0; i < n; i++ {
+		// the files import the same paths under different names: renamed in one file, plain in the
+		// next (what a shared resolver learns from one file must not leak into another)
+		imp, q, osq := "str \"strings\"", "str", "os"
+		if i%2 == 1 {
+			imp, q = "\"strings\"", "strings"
+		}
+		osImp := "\"os\""
+		if i%3 == 2 {
+			osImp, osq = "sys \"os\"", "sys"
+		}
 		out = append(out, []byte(fmt.Sprintf(`package p%d
 
 import (
 	"fmt"
-	str "strings"
-	"os"
+	%s
+	%s
 )
 
 // F%d uses the imports.
 func F%d(a string) string {
-	fmt.Println(os.Args, a) // trailing
-	return str.Repeat(a, %d) + fmt.Sprint(os.Getpid())
+	fmt.Println(%s.Args, a) // trailing
+	return %s.Repeat(a, %d) + fmt.Sprint(%s.Getpid())
 }
-`, i, i, i, i+1)))
+`, i, imp, osImp, i, i, osq, q, i+1, osq)))
 	}
 	return out
 }
